@@ -17,6 +17,18 @@ func (c *Ctx) doCall(st *State, fr *Frame, ins ssa.Instruction, call *ssa.CallCo
 	for i, a := range call.Args {
 		args[i] = c.reg(fr, a, st)
 	}
+	// a pointer-receiver method called on a package-level variable itself (`var memo sync.Map`,
+	// `var mu sync.Mutex`) changes process-global state: outside of package initialisation that is
+	// the same obligation as a store to the variable
+	if !call.IsInvoke() && len(call.Args) > 0 && c.cur != nil && !c.cur.isInit && ins != nil && ins.Parent() != nil && ins.Parent().Name() != "init" {
+		if g, ok := call.Args[0].(*ssa.Global); ok {
+			if cf, ok := call.Value.(*ssa.Function); ok && cf.Signature.Recv() != nil {
+				if _, isPtr := cf.Signature.Recv().Type().Underlying().(*types.Pointer); isPtr {
+					c.emit(st, fr, ins, "access", "global-write", False, "pointer-receiver method "+cf.Name()+" called on package-level variable "+g.Name()+" outside of package initialisation", false)
+				}
+			}
+		}
+	}
 	return c.doCallCommon(st, fr, ins, call, res, fnVal, args, false)
 }
 
@@ -457,6 +469,19 @@ func (c *Ctx) applyContract(st *State, fr *Frame, ins ssa.Instruction, ct *Contr
 		c.Oblige(st, fr, ins, "pre", label, t, short+" requires "+r.Text)
 		// the clause holds from here on: state its consequences too (assume-direction unfolding)
 		_, _ = c.evalBool(env, r.Expr)
+	}
+	if ct.Opts["maypanic"] != "" && ins != nil {
+		// `opt maypanic` on an assumed contract: the library code can panic for arguments no
+		// contract of ours can exclude (division by zero inside an expression, ...). Such a call
+		// has to be made by a function that recovers (entry block defers a closure calling
+		// recover()), so that the panic becomes an error instead of killing the process.
+		// Decided on the SSA, like `opt recovers`.
+		ok := ins.Parent() != nil && defersRecover(ins.Parent())
+		if !ok && fr != nil && fr.fn != nil {
+			ok = defersRecover(fr.fn)
+		}
+		c.emit(st, fr, ins, "recovers", "a-call-that-may-panic-is-made-by-a-function-that-recovers", BoolLit(ok),
+			short+" may panic; the calling function must defer a recover() before it calls anything", false)
 	}
 	if ct.Decreases != nil && c.cur != nil && c.cur.contract != nil && c.cur.contract.Decreases != nil && c.sameRecGroup(c.cur.contract, ct, f) {
 		var ms []Term
